@@ -271,6 +271,13 @@ var zzC18Templates = []string{
 	"function f() { return 7001 - 7002 - 7003; } return f();",
 	"if (7001 - 7002 + 7003 == 2) { return 1; } return 7001 + 7002 + 7003;",
 	"function f(a) { return a + (7001 - (7002 + 7003)); } return f(1) - 7001 + 7002;",
+	// hash and array literals: keys given twice, keys that may coincide, nested literals
+	"h = {\"a\": 7001, \"a\": 7002}; return h;",
+	"function f() { return {1: 7001, 1: 7002, 2: 7003}; } return f();",
+	"return {7001: 1, 7002: 2, 7003: 3};",
+	"return {\"k\": {\"k\": 7001, \"k\": 7002}, \"k\": [7003, 7003]};",
+	"return {1.5: 7001, 1.5: 7002, true: 1, true: 2};",
+	"x = [7001, 7001, [7002, 7002]]; return {x[0]: 1, x[1]: 2};",
 }
 
 // ZZ_C18_Literals: integer literals symbolic in [0, 70000] at AST level:
